@@ -1241,8 +1241,8 @@ func VerifC20bStep() {
 	if !thorough && retries > 1 {
 		w.budget = 1 // quick: with more than one retry only the first attempt shows every behaviour
 	}
-	if retries > 2 {
-		w.budget = 2
+	if thorough && retries > 1 {
+		w.budget = 2 // thorough: the first two attempts
 	}
 	verifIdle(w, cl, verifAddrOf(0), idle)
 	k := verifNewCall(w, kind, verifAddrOf(0), retries, credsMode)
